@@ -141,6 +141,13 @@ def partitions(tier):
             parts.append(dict(name="t2:%d:%s:short" % (S, prefix or "-"), fn="t2",
                               params=dict(S=S, prefix=prefix, rsv=rsv, oldlens=[0, 255],
                                           lens=[0, 1, 5], long=False)))
+    # control TLVs whose size byte is 00h: 256 reserved bytes / 256 lock bits
+    parts.append(dict(name="t2:872:M256", fn="t2",
+                      params=dict(S=872, prefix="M", rsv=[(384, 256)], oldlens=[0],
+                                  lens=[5, 370, 380, "cap", "cap+1"], long=True, concrete=True)))
+    parts.append(dict(name="t2:872:L256", fn="t2",
+                      params=dict(S=872, prefix="L", rsv=[(384, 32)], oldlens=[0],
+                                  lens=[5, 370, 380, "cap", "cap+1"], long=True, concrete=True)))
     # room for the NDEF TLV on both sides of 254+3 bytes (where the capacity
     # calculation switches to the three-byte length format): a 264 byte data
     # area with 5..9 bytes of other TLVs in front
@@ -216,6 +223,9 @@ def partitions(tier):
                           params=dict(hr=hr, size=size, prefix="P", rsv=[], plen=plen, oldlens=[5] if known else [0, 5],
                                       lens=[1] if known else [0, 1, 9, "cap", "cap+1"], long=True,
                                       rsv_on_len=True, concrete=known)))
+    parts.append(dict(name="t1:dyn1024:L256+M256", fn="t1",
+                      params=dict(hr=(0x12, 0x00), size=1024, prefix="LM", rsv=[(128, 32), (512, 256)],
+                                  oldlens=[0], lens=[9, 400, "cap", "cap+1"], long=True, concrete=True)))
     # the largest dynamic memory (TMS FFh, 2 KiB, sixteen segments): messages
     # that reach into the last segment (previous contents concrete)
     parts.append(dict(name="t1:dyn2048:last-segment", fn="t1",
